@@ -18,7 +18,7 @@ import (
 
 // C14 — ToJSON emits valid JSON that denotes the frame; ReadJSON inverts it.
 
-var evC14 = ev.New("C14", "derived frames whose strings and column names range over arbitrary bytes (ASCII controls, quotes, backslashes, DEL, U+2028/2029, multi-byte, malformed UTF-8), floats over raw finite bit patterns and NaN, "+
+var evC14 = ev.New("C14", "derived frames whose strings and column names range over arbitrary bytes (ASCII controls, quotes, backslashes, DEL, U+2028/2029, multi-byte, malformed UTF-8), floats over raw and structured finite bit patterns and NaN, "+
 	"ints incl. extremes, bools, declared/derived enums; oracle: json.Valid + encoding/json token stream (one object per row in order, keys in column order, ints textually exact, float text parsing back to identical bits, "+
 	"NaN/null as null, strings equal to the cell with invalid bytes as U+FFFD), then ReadJSON of the output reproduces bool/string/enum/NaN-free float columns and equal-valued floats for ints; "+
 	"non-trivial = a name or cell needing an escape and a non-integral float; distinct = FNV-64 of (table, route)")
